@@ -20,13 +20,13 @@ LEVEL = "exploration"
 RUNS = {"quick": 1500, "thorough": 30000}
 CHUNK = {"quick": 10, "thorough": 50}
 OPS = ["view:settings", "view:settings_by_index", "view:raw_settings", "view:raw_settings_by_index", "map:name:pretty",
-       "map:const:raw", "map:enum:noparse", "props", "repr", "c2http:rsa", "c2http:aes_rand", "c2http:aes_hmac",
+       "map:const:raw", "map:enum:noparse", "map:name:noparse", "map:const:noparse", "rsa_session", "props", "repr", "c2http:rsa", "c2http:aes_rand", "c2http:aes_hmac",
        "c2http:aes_noverify", "client_dry", "client_dry:args", "dunders", "profile_text", "profile_dict", "transform_get", "transform_post",
        "transform_server", "transform_get_noreq", "transform_post_noreq", "recover_roundtrip", "iter_recover", "mutate_attempt"]
 PROBES = ["op_" + o.replace(":", "_") for o in OPS] + ["real_sample_config", "generated_config", "history_len>=10",
                                                         "consumer_then_observe", "pair_sweep", "pivot_config_without_domains", "sample_constructed_full",
                                                         "sample_constructed_bare", "companion_observed_first", "damaged_config_views_raise"]
-RULE = ("systematic population: every ordered pair of the 26 operation kinds (view access, settings_map variants, derived "
+RULE = ("systematic population: every ordered pair of the 29 operation kinds (view access, settings_map variants, derived "
         "properties, repr, C2Http with each key variant, HttpBeaconClient dry run, profile generation text/dict, "
         "transform/recover/iter_recover_http on decoders built so far, mutation attempts) followed by a final observation, "
         "on 3 generated configurations (quick) / 8 (thorough), triples in thorough on one configuration; seeded population: "
@@ -181,6 +181,13 @@ def generate(rng, tier, index):
                           "extra": [e for i, e in enumerate(extra) if e[0] not in [x[0] for x in extra[:i]]]}}
     cfg = gen_config(rng, allow_uri_append=rng.random() < 0.3, allow_static_param=rng.random() < 0.5,
                      rsa=rng.choice(["rsa1024_a", "rsa2048_a"]))
+    if rng.random() < 0.15:
+        # one setting index occurring twice, with other settings behind it (legal: the later record wins in the mappings)
+        idx = rng.choice([rng.randint(100, 400), 36, 35])
+        t = "short" if idx in (35, 36) else rng.choice(["short", "int"])
+        cfg["extra"] = [e for e in cfg.get("extra", []) if e[0] != idx] + [[idx, t, rng.getrandbits(16)], [rng.randint(401, 9000), "int", rng.getrandbits(32)],
+                                                                          [idx, t, rng.getrandbits(16)], [rng.randint(9001, 65000), "short", rng.getrandbits(16)]]
+        cfg["duplicate_setting"] = idx
     if rng.random() < 0.08:
         # a damaged configuration: one setting whose pretty function fails (DNS idle address of the wrong length). The pretty
         # views and everything built on them then raise - every time, the same way, whatever was done before
@@ -324,6 +331,27 @@ def run_op(op: str, st: State, seams) -> str:
         return repr(sorted((k, [str(x) if not isinstance(x, (tuple, bytes)) else x for x in v]) for k, v in d.items()))
     if not st.is_http:
         return "n/a"
+    if op == "rsa_session":
+        # a brand-new decoder that holds nothing but the RSA key sees one and the same session: a check-in, then the task
+        # sent in reply (the PRNG seams are re-seeded before every operation, so the very same bytes every time)
+        if st.priv is None:
+            return "n/a"
+        from dissect.cobaltstrike.c2 import BeaconMetadata, encrypt_metadata
+        from dissect.cobaltstrike.c2 import ClientC2Data
+        md = BeaconMetadata()
+        md.magic, md.bid, md.pid, md.aes_rand, md.info = 0xBEEF, 4242, 7, b"S" * 16, b"pc\tuser\tp.exe"
+        dec = C2Http(bc, rsa_private_key=st.priv)
+        blob = encrypt_metadata(md, public_key=dec.pub)
+        req = dec.transform_get.transform(C2Data(metadata=blob), request=HttpRequest(method=dec.get_verb, uri=dec.get_uris[0], params={},
+                                                                                 headers={}, body=b""))
+        first = [type(p_).__name__ for p_ in dec.iter_recover_http(req)]
+        import hashlib
+        d_ = hashlib.sha256(b"S" * 16).digest()
+        ep = encrypt_packet(b"\x00\x00\x00\x01\x00\x00\x00\x08\x00\x00\x00\x27\x00\x00\x00\x00", d_[:16], d_[16:])
+        body = dec.transform_response.transform(C2Data(output=ep.ciphertext + ep.signature)).body
+        pk = list(dec.iter_recover_http(HttpResponse(status=200, reason=b"OK", headers={}, body=body)))
+        st.decoders.append(dec)
+        return repr((first, [(type(p_).__name__, int(p_.command)) for p_ in pk]))
     if op.startswith("c2http:"):
         v = op[7:]
         rand = b"R" * 16
@@ -479,7 +507,7 @@ def execute(plan: dict) -> Result:
                 if built_consumer:
                     res.probes["consumer_then_observe"] += 1
                     res.nontrivial = True
-                if op.startswith("c2http") or op in ("client_dry", "client_dry:args", "profile_text", "profile_dict") or op.startswith("transform") \
+                if op.startswith("c2http") or op in ("client_dry", "client_dry:args", "rsa_session", "profile_text", "profile_dict") or op.startswith("transform") \
                         or op in ("recover_roundtrip", "iter_recover"):
                     built_consumer = True
                 if op == "mutate_attempt" and "ACCEPTED" in got:
@@ -538,7 +566,7 @@ def execute(plan: dict) -> Result:
 
 def _first_consumer(hist):
     for op in hist:
-        if op.startswith("c2http") or op in ("client_dry", "client_dry:args", "profile_text", "profile_dict") or op.startswith("transform") or \
+        if op.startswith("c2http") or op in ("client_dry", "client_dry:args", "rsa_session", "profile_text", "profile_dict") or op.startswith("transform") or \
                 op in ("recover_roundtrip", "iter_recover"):
             return "after:" + op.split(":")[0]
     return "after:reads_only"
